@@ -19,6 +19,7 @@ use std::sync::{Arc, Mutex};
 
 use hutil::{Args, Log, Rng, Stats};
 use ractor::thread_local::{ThreadLocalActor, ThreadLocalActorSpawner};
+use ractor::verif::{self, ThreadCtl, ThreadPhase};
 use ractor::{Actor, ActorProcessingErr, ActorRef, SpawnErr, SupervisionEvent};
 use tokio::task::JoinHandle;
 
@@ -28,21 +29,51 @@ struct Shared {
     reason: Option<String>,
 }
 
+/// The pre_start gate: with `mode` 1 pre_start parks at its await point until `open` is notified
+/// (ops `enter` / `leave`); `me` is the actor's own reference as pre_start received it (the only
+/// way to reach an actor spawned with the non-instant `spawn*` calls before they return — what a
+/// pre_start that registers itself somewhere makes possible).
+#[derive(Default)]
+struct Gate {
+    mode: AtomicU8,
+    entered: AtomicU8,
+    open: tokio::sync::Notify,
+    me: Mutex<Option<ActorRef<u64>>>,
+}
+
+impl Gate {
+    async fn pass(&self, myself: ActorRef<u64>) {
+        *self.me.lock().unwrap() = Some(myself);
+        if self.mode.load(Ordering::SeqCst) == 1 {
+            self.entered.store(1, Ordering::SeqCst);
+            self.open.notified().await;
+        }
+    }
+}
+
 struct Target {
     shared: Arc<Mutex<Shared>>,
     outcome: Arc<AtomicU8>, // what pre_start returns: 0 ok, 1 err
+    gate: Arc<Gate>,
 }
 
 impl Actor for Target {
     type Msg = u64;
     type State = ();
     type Arguments = ();
-    async fn pre_start(&self, _: ActorRef<u64>, _: ()) -> Result<(), ActorProcessingErr> {
+    async fn pre_start(&self, myself: ActorRef<u64>, _: ()) -> Result<(), ActorProcessingErr> {
+        self.gate.pass(myself).await;
         if self.outcome.load(Ordering::SeqCst) == 0 {
             Ok(())
         } else {
             Err("pre_start failed".into())
         }
+    }
+    async fn post_start(&self, _: ActorRef<u64>, _: &mut ()) -> Result<(), ActorProcessingErr> {
+        // flavour `thr`: the start ran on a thread registered with a ThreadCtl; the actor's own
+        // loop (same thread) is not stepped any more (a no-op on unregistered threads)
+        verif::thread_unregister();
+        Ok(())
     }
     async fn handle(&self, _: ActorRef<u64>, m: u64, _: &mut ()) -> Result<(), ActorProcessingErr> {
         self.shared.lock().unwrap().handled.push(m);
@@ -56,12 +87,14 @@ struct TargetTl;
 struct TlArgs {
     shared: Arc<Mutex<Shared>>,
     outcome: Arc<AtomicU8>,
+    gate: Arc<Gate>,
 }
 impl ThreadLocalActor for TargetTl {
     type Msg = u64;
     type State = Arc<Mutex<Shared>>;
     type Arguments = TlArgs;
-    async fn pre_start(&self, _: ActorRef<u64>, a: TlArgs) -> Result<Self::State, ActorProcessingErr> {
+    async fn pre_start(&self, myself: ActorRef<u64>, a: TlArgs) -> Result<Self::State, ActorProcessingErr> {
+        a.gate.pass(myself).await;
         if a.outcome.load(Ordering::SeqCst) == 0 {
             Ok(a.shared)
         } else {
@@ -118,20 +151,86 @@ async fn quiesce() {
 struct World {
     shared: Arc<Mutex<Shared>>,
     outcome: Arc<AtomicU8>,
-    target: ActorRef<u64>,
+    gate: Arc<Gate>,
+    /// instant spawns hand the reference out at once; the plain `spawn*` calls only through pre_start
+    target: Option<ActorRef<u64>>,
     start: Option<JoinHandle<Result<JoinHandle<()>, SpawnErr>>>,
+    /// the start task has been let run (`enter` / `poll`): later ops are followed by a settle
+    begun: bool,
     sup: Option<ActorRef<()>>,
     next: u64,
     /// thread-local flavour: the spawner and the channel that releases its thread
     spawner: Option<ThreadLocalActorSpawner>,
     release: Option<std::sync::mpsc::Sender<()>>,
     blocker: Option<JoinHandle<()>>,
+    /// a `drain()` running on its own OS thread, parked at its schedule points (`dbegin` / `dstep`)
+    fine: Option<FineDrain>,
+}
+
+/// One `drain()` call executed step by step: the thread is registered with a `ThreadCtl`, so it
+/// parks at `drain.close`, `drain.status`, `marker.load`, `marker.cas`, `marker.enqueue`.
+struct FineDrain {
+    ctl: Arc<ThreadCtl>,
+    result: Arc<Mutex<Option<bool>>>,
+    thread: Option<std::thread::JoinHandle<()>>,
+}
+
+impl FineDrain {
+    fn begin(t: ActorRef<u64>) -> Self {
+        let ctl = ThreadCtl::new();
+        let result: Arc<Mutex<Option<bool>>> = Default::default();
+        let (c2, r2) = (ctl.clone(), result.clone());
+        let thread = std::thread::spawn(move || {
+            verif::thread_register(c2.clone());
+            let r = t.drain().is_ok();
+            verif::thread_unregister();
+            *r2.lock().unwrap() = Some(r);
+            c2.finish();
+        });
+        FineDrain { ctl, result, thread: Some(thread) }
+    }
+    fn wait(&self) -> ThreadPhase {
+        self.ctl
+            .wait_parked_timeout(std::time::Duration::from_secs(20))
+            .expect("drain thread neither parked nor done after 20 s")
+    }
+    fn show(&mut self, ph: ThreadPhase) -> String {
+        match ph {
+            ThreadPhase::AtPoint(p) => format!("at={p}"),
+            ThreadPhase::Done => {
+                if let Some(t) = self.thread.take() {
+                    let _ = t.join();
+                }
+                format!("done={}", if self.result.lock().unwrap().unwrap_or(false) { "ok" } else { "err" })
+            }
+            ThreadPhase::Running => "running".into(),
+        }
+    }
+    /// one model step: the CAS that sets the marker bit and the enqueue of the marker go together
+    fn step(&mut self) -> String {
+        let at_cas = self.ctl.phase() == ThreadPhase::AtPoint("marker.cas");
+        self.ctl.grant();
+        let mut ph = self.wait();
+        if at_cas && ph == ThreadPhase::AtPoint("marker.enqueue") {
+            self.ctl.grant();
+            ph = self.wait();
+        }
+        self.show(ph)
+    }
+    fn finish(&mut self) {
+        self.ctl.release();
+        if let Some(t) = self.thread.take() {
+            let _ = t.join();
+        }
+    }
 }
 
 impl World {
-    async fn new(linked: bool, tl: bool) -> Self {
+    /// `ni`: the non-instant calls `spawn` / `spawn_linked`, awaited by a task of the harness
+    async fn new(linked: bool, tl: bool, ni: bool) -> Self {
         let shared: Arc<Mutex<Shared>> = Default::default();
         let outcome = Arc::new(AtomicU8::new(0));
+        let gate: Arc<Gate> = Default::default();
         let sup = if linked {
             let (s, _) = Actor::spawn(None, Sup { shared: shared.clone() }, ()).await.expect("sup");
             quiesce().await;
@@ -155,29 +254,59 @@ impl World {
             }
             // the spawner's thread stands still inside the blocker's pre_start: the target's
             // start request stays queued until `poll`
-            let args = TlArgs { shared: shared.clone(), outcome: outcome.clone() };
-            let (target, start) = match &sup {
-                Some(s) => TargetTl::spawn_linked_instant(None, args, s.get_cell(), spawner.clone()).expect("instant"),
-                None => TargetTl::spawn_instant(None, args, spawner.clone()).expect("instant"),
+            let args = TlArgs { shared: shared.clone(), outcome: outcome.clone(), gate: gate.clone() };
+            let (target, start) = if ni {
+                let (sp, s2) = (spawner.clone(), sup.clone());
+                let h = tokio::spawn(async move {
+                    let (_, h) = match s2 {
+                        Some(s) => TargetTl::spawn_linked(None, args, s.get_cell(), sp).await?,
+                        None => TargetTl::spawn(None, args, sp).await?,
+                    };
+                    Ok(h)
+                });
+                (None, h)
+            } else {
+                let (t, h) = match &sup {
+                    Some(s) => TargetTl::spawn_linked_instant(None, args, s.get_cell(), spawner.clone()).expect("instant"),
+                    None => TargetTl::spawn_instant(None, args, spawner.clone()).expect("instant"),
+                };
+                (Some(t), h)
             };
-            return World { shared, outcome, target, start: Some(start), sup, next: 0, spawner: Some(spawner), release: Some(tx), blocker: Some(blocker) };
+            return World { shared, outcome, gate, target, start: Some(start), begun: false, sup, next: 0, spawner: Some(spawner), release: Some(tx), blocker: Some(blocker), fine: None };
         }
-        let t = Target { shared: shared.clone(), outcome: outcome.clone() };
+        let t = Target { shared: shared.clone(), outcome: outcome.clone(), gate: gate.clone() };
         // no yield between this call and the ops that follow: the start task has not been polled
-        let (target, start) = match &sup {
-            Some(s) => ractor::ActorRuntime::<Target>::spawn_linked_instant(None, t, (), s.get_cell()).expect("instant"),
-            None => ractor::ActorRuntime::<Target>::spawn_instant(None, t, ()).expect("instant"),
+        let (target, start) = if ni {
+            let s2 = sup.clone();
+            let h = tokio::spawn(async move {
+                let (_, h) = match s2 {
+                    Some(s) => Actor::spawn_linked(None, t, (), s.get_cell()).await?,
+                    None => Actor::spawn(None, t, ()).await?,
+                };
+                Ok(h)
+            });
+            (None, h)
+        } else {
+            let (r, h) = match &sup {
+                Some(s) => ractor::ActorRuntime::<Target>::spawn_linked_instant(None, t, (), s.get_cell()).expect("instant"),
+                None => ractor::ActorRuntime::<Target>::spawn_instant(None, t, ()).expect("instant"),
+            };
+            (Some(r), h)
         };
-        World { shared, outcome, target, start: Some(start), sup, next: 0, spawner: None, release: None, blocker: None }
+        World { shared, outcome, gate, target, start: Some(start), begun: false, sup, next: 0, spawner: None, release: None, blocker: None, fine: None }
+    }
+
+    fn target(&self) -> Option<ActorRef<u64>> {
+        self.target.clone().or_else(|| self.gate.me.lock().unwrap().clone())
     }
 
     fn snap(&self) -> String {
         let sh = self.shared.lock().unwrap();
         let h: Vec<String> = sh.handled.iter().map(|x| x.to_string()).collect();
         format!(
-            "h=[{}] st={:?} r={}",
+            "h=[{}] st={} r={}",
             h.join(","),
-            self.target.get_status(),
+            self.target().map(|t| format!("{:?}", t.get_status())).unwrap_or_else(|| "NoRef".into()),
             if self.sup.is_some() { sh.reason.clone().unwrap_or_else(|| "-".into()) } else { "-".into() }
         )
     }
@@ -197,20 +326,33 @@ impl World {
         }
     }
 
-    /// ops issued before `poll` never yield; afterwards the world is run to quiescence
+    async fn join_start(&mut self) -> String {
+        match self.start.take() {
+            None => "start=already".into(),
+            Some(jh) => match jh.await {
+                Ok(Ok(_)) => "start=ok".into(),
+                Ok(Err(SpawnErr::ActorAlreadyStarted)) => "start=err:already-started".into(),
+                Ok(Err(SpawnErr::StartupFailed(_))) => "start=err:startup-failed".into(),
+                Ok(Err(_)) => "start=err:other".into(),
+                Err(_) => "start=err:join".into(),
+            },
+        }
+    }
+
+    /// ops issued before `poll` / `enter` never yield; afterwards the world is run to quiescence
     async fn exec(&mut self, line: &str) -> String {
-        let started = self.start.is_none();
         let w: Vec<&str> = line.split_whitespace().collect();
-        let r = match w.as_slice() {
-            ["cast"] => {
+        let t = self.target();
+        let r = match (w.as_slice(), &t) {
+            (["cast"], Some(t)) => {
                 let id = self.next;
                 self.next += 1;
-                if self.target.cast(id).is_ok() { "ok" } else { "err" }.to_string()
+                if t.cast(id).is_ok() { "ok" } else { "err" }.to_string()
             }
             // cluster builds: the same cast as a serialized message (`ActorCell::send_serialized`,
             // the path a NodeSession uses for messages from a peer)
             #[cfg(feature = "cluster")]
-            ["scast"] => {
+            (["scast"], Some(t)) => {
                 let id = self.next;
                 self.next += 1;
                 let m = ractor::message::SerializedMessage::Cast {
@@ -218,47 +360,113 @@ impl World {
                     args: ractor::BytesConvertable::into_bytes(id),
                     metadata: None,
                 };
-                if self.target.get_cell().send_serialized(m).is_ok() { "ok" } else { "err" }.to_string()
+                if t.get_cell().send_serialized(m).is_ok() { "ok" } else { "err" }.to_string()
             }
-            ["drain"] => if self.target.drain().is_ok() { "ok" } else { "err" }.to_string(),
-            ["stop"] => {
-                self.target.stop(None);
+            (["drain"], Some(t)) => if t.drain().is_ok() { "ok" } else { "err" }.to_string(),
+            (["stop"], Some(t)) => {
+                t.stop(None);
                 "ok".into()
             }
-            ["kill"] => {
-                self.target.kill();
+            (["kill"], Some(t)) => {
+                t.kill();
                 "ok".into()
             }
-            ["poll", o] => {
+            // a drain() of its own OS thread, advanced one atomic operation at a time
+            (["dbegin"], Some(t)) => {
+                if self.fine.is_some() {
+                    "dbegin=busy".into()
+                } else {
+                    let mut f = FineDrain::begin(t.clone());
+                    let ph = f.wait();
+                    let r = f.show(ph);
+                    self.fine = Some(f);
+                    r
+                }
+            }
+            (["dstep"], _) => match self.fine.as_mut() {
+                None => "dstep=none".into(),
+                Some(f) => {
+                    let r = f.step();
+                    if r.starts_with("done") {
+                        self.fine = None;
+                    }
+                    r
+                }
+            },
+            (["cast" | "scast" | "drain" | "stop" | "kill" | "dbegin"], None) => "noref".into(),
+            (["poll", o], _) => {
                 self.outcome.store(if *o == "ok" { 0 } else { 1 }, Ordering::SeqCst);
                 if let Some(tx) = self.release.take() {
                     let _ = tx.send(());
                 }
-                match self.start.take() {
-                    None => "start=already".into(),
-                    Some(jh) => match jh.await {
-                        Ok(Ok(_)) => "start=ok".into(),
-                        Ok(Err(SpawnErr::ActorAlreadyStarted)) => "start=err:already-started".into(),
-                        Ok(Err(SpawnErr::StartupFailed(_))) => "start=err:startup-failed".into(),
-                        Ok(Err(_)) => "start=err:other".into(),
-                        Err(_) => "start=err:join".into(),
-                    },
+                self.begun = true;
+                // a start parked at the gate (`enter`) is let go as by `leave`
+                self.gate.mode.store(0, Ordering::SeqCst);
+                self.gate.open.notify_one();
+                self.join_start().await
+            }
+            // the start task runs until pre_start is parked at its await point
+            (["enter"], _) => {
+                if self.begun {
+                    "enter=already".into()
+                } else {
+                    self.gate.mode.store(1, Ordering::SeqCst);
+                    if let Some(tx) = self.release.take() {
+                        let _ = tx.send(());
+                    }
+                    self.begun = true;
+                    let mut n = 0;
+                    while self.gate.entered.load(Ordering::SeqCst) == 0
+                        && !self.start.as_ref().is_some_and(|h| h.is_finished())
+                        && n < 2000
+                    {
+                        tokio::task::yield_now().await;
+                        if self.spawner.is_some() {
+                            std::thread::yield_now();
+                        }
+                        n += 1;
+                    }
+                    self.settle().await;
+                    if self.start.as_ref().is_some_and(|h| h.is_finished()) {
+                        // a kill that was already pending won the select before pre_start ran
+                        "start-over"
+                    } else if self.gate.entered.load(Ordering::SeqCst) == 1 {
+                        "entered"
+                    } else {
+                        "not-entered"
+                    }
+                    .into()
                 }
+            }
+            // pre_start returns
+            (["leave", o], _) => {
+                self.begun = true;
+                self.outcome.store(if *o == "ok" { 0 } else { 1 }, Ordering::SeqCst);
+                self.gate.mode.store(0, Ordering::SeqCst);
+                self.gate.open.notify_one();
+                self.join_start().await
             }
             _ => "bad-op".into(),
         };
-        if started || self.start.is_none() {
+        if self.begun {
             self.settle().await;
         }
         format!("{r} {}", self.snap())
     }
 
     async fn finish(mut self) {
+        if let Some(mut f) = self.fine.take() {
+            f.finish();
+        }
         let rel = self.release.take();
         if let Some(tx) = &rel {
             let _ = tx.send(());
         }
-        self.target.kill();
+        self.gate.mode.store(0, Ordering::SeqCst);
+        self.gate.open.notify_one();
+        if let Some(t) = self.target() {
+            t.kill();
+        }
         if let Some(s) = &self.sup {
             s.kill();
         }
@@ -275,10 +483,184 @@ impl World {
     }
 }
 
-async fn run_case(log: &mut Log, st: &mut Stats, ops: &[String], linked: bool, tl: bool) {
-    let mut w = World::new(linked, tl).await;
+/// Flavour `thr`: `spawn_instant` / `spawn_linked_instant` (Send or thread-local) is called, and its start
+/// task polled, on an OS thread of its own that is registered with a `ThreadCtl`; `tbegin` lets it run to
+/// its first `status.publish` (the status check of `start` is done, `Starting` not yet published),
+/// `sstep` to the next of `status.publish` / `tree.link` (thread-local: the early link right after the
+/// publication; Send: the link after pre_start returned) — the positions of the start thread that have no
+/// await point. Casts and drains are issued from the harness thread while it is parked. The `sstep` that
+/// completes the start also ends the case: an actor nobody drained is drained, the actor is awaited.
+async fn run_thr_case(log: &mut Log, st: &mut Stats, ops: &[String], linked: bool, tl: bool) {
+    st.bump("case_thr");
+    log.rec(format!("case {}{} thr", linked as u8, if tl { " tl" } else { "" }), "ok");
+    let shared: Arc<Mutex<Shared>> = Default::default();
+    let sup = if linked {
+        let (s, _) = Actor::spawn(None, Sup { shared: shared.clone() }, ()).await.expect("sup");
+        quiesce().await;
+        Some(s)
+    } else {
+        None
+    };
+    let iref: Arc<Mutex<Option<ActorRef<u64>>>> = Default::default();
+    let result: Arc<Mutex<Option<String>>> = Default::default();
+    let mut ctl: Option<Arc<ThreadCtl>> = None;
+    let mut thread: Option<std::thread::JoinHandle<()>> = None;
+    let spawner = if tl { Some(ThreadLocalActorSpawner::new()) } else { None };
+    let (mut next, mut drained, mut over) = (0u64, false, false);
+    // `status.publish` is a stop only for `tbegin` (the publication of `Starting`); later ones (the
+    // guard's cleanup of a start that failed) are passed, so that a failing start reports its result
+    let advance = |ctl: &Arc<ThreadCtl>, result: &Arc<Mutex<Option<String>>>, grant: bool| -> String {
+        let first = !grant;
+        if grant {
+            ctl.grant();
+        }
+        let t0 = std::time::Instant::now();
+        loop {
+            if let Some(r) = result.lock().unwrap().clone() {
+                return format!("done={r}");
+            }
+            if t0.elapsed() > std::time::Duration::from_secs(30) {
+                return "hang".into();
+            }
+            match ctl.wait_parked_timeout(std::time::Duration::from_millis(2)) {
+                Some(ThreadPhase::AtPoint(p)) if (first && p == "status.publish") || p == "tree.link" => return format!("at={p}"),
+                Some(ThreadPhase::AtPoint(_)) => ctl.grant(),
+                Some(ThreadPhase::Done) => return format!("done={}", result.lock().unwrap().clone().unwrap_or_else(|| "?".into())),
+                _ => {}
+            }
+        }
+    };
+    for op in ops {
+        st.bump(op.split_whitespace().next().unwrap_or("?"));
+        let t = iref.lock().unwrap().clone();
+        let mut r: String = match (op.as_str(), &t) {
+            ("tbegin", _) if ctl.is_none() => {
+                let c = ThreadCtl::new();
+                ctl = Some(c.clone());
+                let (sh, ir, rs, sp) = (shared.clone(), iref.clone(), result.clone(), spawner.clone());
+                let supc = sup.as_ref().map(|s| s.get_cell());
+                thread = Some(std::thread::spawn(move || {
+                    verif::thread_register(c.clone());
+                    let rt = tokio::runtime::Builder::new_current_thread().enable_all().build().expect("rt");
+                    rt.block_on(async move {
+                        let outcome = Arc::new(AtomicU8::new(0));
+                        let gate: Arc<Gate> = Default::default();
+                        let spawned = match sp {
+                            Some(sp) => {
+                                let args = TlArgs { shared: sh, outcome, gate };
+                                match supc {
+                                    Some(p) => TargetTl::spawn_linked_instant(None, args, p, sp),
+                                    None => TargetTl::spawn_instant(None, args, sp),
+                                }
+                            }
+                            None => {
+                                let t = Target { shared: sh, outcome, gate };
+                                match supc {
+                                    Some(p) => ractor::ActorRuntime::<Target>::spawn_linked_instant(None, t, (), p),
+                                    None => ractor::ActorRuntime::<Target>::spawn_instant(None, t, ()),
+                                }
+                            }
+                        };
+                        let (aref, jh) = spawned.expect("instant");
+                        *ir.lock().unwrap() = Some(aref);
+                        let res = jh.await;
+                        verif::thread_unregister();
+                        let (txt, handle) = match res {
+                            Ok(Ok(h)) => ("start=ok", Some(h)),
+                            Ok(Err(SpawnErr::ActorAlreadyStarted)) => ("start=err:already-started", None),
+                            Ok(Err(SpawnErr::StartupFailed(_))) => ("start=err:startup-failed", None),
+                            Ok(Err(_)) => ("start=err:other", None),
+                            Err(_) => ("start=err:join", None),
+                        };
+                        *rs.lock().unwrap() = Some(txt.to_string());
+                        if let Some(h) = handle {
+                            let _ = h.await;
+                        }
+                    });
+                    c.finish();
+                }));
+                advance(ctl.as_ref().unwrap(), &result, false)
+            }
+            ("sstep", _) if ctl.is_some() && !over => advance(ctl.as_ref().unwrap(), &result, true),
+            ("cast", Some(t)) if !over => {
+                let id = next;
+                next += 1;
+                if t.cast(id).is_ok() { "ok" } else { "err" }.to_string()
+            }
+            ("drain", Some(t)) if !over => {
+                drained = true;
+                if t.drain().is_ok() { "ok" } else { "err" }.to_string()
+            }
+            _ => "bad-op".into(),
+        };
+        if r.starts_with("done=") && !over {
+            over = true;
+            // the start is over: an actor nobody drained is drained now (so that it ends by itself,
+            // deterministically, after its backlog); then the actor is awaited
+            if let (false, Some(t)) = (drained, iref.lock().unwrap().clone()) {
+                let _ = t.drain();
+            }
+            let mut n = 0;
+            while thread.as_ref().is_some_and(|h| !h.is_finished()) && n < 5000 {
+                std::thread::sleep(std::time::Duration::from_millis(1));
+                tokio::task::yield_now().await;
+                n += 1;
+            }
+            if thread.as_ref().is_some_and(|h| !h.is_finished()) {
+                r.push_str("+hang");
+            }
+            quiesce().await;
+        }
+        let snap = {
+            let sh = shared.lock().unwrap();
+            let h: Vec<String> = sh.handled.iter().map(|x| x.to_string()).collect();
+            format!(
+                "h=[{}] st={} r={}",
+                h.join(","),
+                iref.lock().unwrap().as_ref().map(|t| format!("{:?}", t.get_status())).unwrap_or_else(|| "NoRef".into()),
+                if sup.is_some() { sh.reason.clone().unwrap_or_else(|| "-".into()) } else { "-".into() }
+            )
+        };
+        log.rec(op.clone(), format!("{r} {snap}"));
+    }
+    if let Some(c) = &ctl {
+        c.release();
+    }
+    if let Some(t) = iref.lock().unwrap().clone() {
+        t.kill();
+    }
+    if let Some(h) = thread.take() {
+        let mut n = 0;
+        while !h.is_finished() && n < 5000 {
+            std::thread::sleep(std::time::Duration::from_millis(1));
+            n += 1;
+        }
+        if h.is_finished() {
+            let _ = h.join();
+        }
+    }
+    if let Some(s) = &sup {
+        s.kill();
+    }
+    quiesce().await;
+}
+
+fn gen_thr_ops(rng: &mut Rng, linked: bool) -> Vec<String> {
+    let mut ops = vec!["tbegin".to_string()];
+    for _ in 0..(1 + linked as u64) {
+        for _ in 0..rng.range(0, 2) {
+            ops.push(if rng.chance(11, 20) { "cast" } else { "drain" }.to_string());
+        }
+        ops.push("sstep".to_string());
+    }
+    ops
+}
+
+async fn run_case(log: &mut Log, st: &mut Stats, ops: &[String], linked: bool, tl: bool, ni: bool) {
+    let mut w = World::new(linked, tl, ni).await;
     st.bump(if tl { "case_tl" } else { "case_send" });
-    log.rec(format!("case {}{}", linked as u8, if tl { " tl" } else { "" }), "ok");
+    st.bump(if ni { "case_plain_spawn" } else { "case_instant" });
+    log.rec(format!("case {}{}{}", linked as u8, if tl { " tl" } else { "" }, if ni { " ni" } else { "" }), "ok");
     for op in ops {
         let r = w.exec(op).await;
         st.bump(op.split_whitespace().next().unwrap_or("?"));
@@ -295,9 +677,10 @@ fn cast_op(rng: &mut Rng) -> &'static str {
     }
 }
 
-fn gen_ops(rng: &mut Rng, st: &mut Stats) -> Vec<String> {
+/// `ni`: nobody holds a reference before pre_start runs, so no requests before the start
+fn gen_ops(rng: &mut Rng, st: &mut Stats, ni: bool) -> Vec<String> {
     let mut ops = Vec::new();
-    let pre = rng.range(0, 6);
+    let pre = if ni { 0 } else { rng.range(0, 6) };
     let mut drained = false;
     for _ in 0..pre {
         let k = rng.below(100);
@@ -317,7 +700,33 @@ fn gen_ops(rng: &mut Rng, st: &mut Stats) -> Vec<String> {
     if drained {
         st.bump("case_drain_before_start");
     }
-    ops.push(if rng.chance(5, 6) { "poll ok" } else { "poll err" }.to_string());
+    if ni || rng.chance(1, 2) {
+        // the start is let run up to pre_start's await point; requests arrive while it is parked
+        ops.push("enter".to_string());
+        let mid = rng.range(0, 4);
+        let mut d = false;
+        for _ in 0..mid {
+            let k = rng.below(100);
+            ops.push(
+                match k {
+                    0..=49 => cast_op(rng),
+                    50..=87 => {
+                        d = true;
+                        "drain"
+                    }
+                    88..=94 => "stop",
+                    _ => "kill",
+                }
+                .to_string(),
+            );
+        }
+        if d {
+            st.bump("case_drain_during_pre_start");
+        }
+        ops.push(if rng.chance(5, 6) { "leave ok" } else { "leave err" }.to_string());
+    } else {
+        ops.push(if rng.chance(5, 6) { "poll ok" } else { "poll err" }.to_string());
+    }
     let post = rng.range(0, 5);
     for _ in 0..post {
         let k = rng.below(100);
@@ -334,26 +743,49 @@ fn gen_ops(rng: &mut Rng, st: &mut Stats) -> Vec<String> {
     ops
 }
 
+/// `--fine 1`: one of the case's drains runs on its own OS thread and is advanced one atomic
+/// operation at a time (`dbegin`, then up to 4 `dstep`s) between the other ops of the case —
+/// before the start task is polled, while pre_start is suspended, after the start
+fn add_fine(rng: &mut Rng, st: &mut Stats, ops: &mut Vec<String>, ni: bool) {
+    let lo = if ni { ops.iter().position(|o| o == "enter").map(|i| i + 1).unwrap_or(ops.len()) } else { 0 };
+    let mut pos = rng.range(lo as u64, ops.len() as u64) as usize;
+    ops.insert(pos, "dbegin".to_string());
+    let n = rng.range(1, 4);
+    for _ in 0..n {
+        pos = rng.range(pos as u64 + 1, ops.len() as u64) as usize;
+        ops.insert(pos, "dstep".to_string());
+    }
+    st.bump("case_fine_drain");
+}
+
 async fn replay_ops(log: &mut Log, st: &mut Stats, path: &str) {
     let text = std::fs::read_to_string(path).unwrap_or_default();
-    let mut cur: Option<(bool, bool, Vec<String>)> = None;
+    let mut cur: Option<(bool, bool, bool, Vec<String>)> = None;
     for line in text.lines() {
         let line = line.trim();
         if line.is_empty() {
             continue;
         }
         if let Some(rest) = line.strip_prefix("case") {
-            if let Some((l, t, ops)) = cur.take() {
-                run_case(log, st, &ops, l, t).await;
+            if let Some((l, t, n, ops)) = cur.take() {
+                if ops.first().is_some_and(|o| o == "tbegin") {
+                    run_thr_case(log, st, &ops, l, t).await;
+                } else {
+                    run_case(log, st, &ops, l, t, n).await;
+                }
             }
             let f: Vec<&str> = rest.split_whitespace().collect();
-            cur = Some((f.first() == Some(&"1"), f.get(1) == Some(&"tl"), vec![]));
-        } else if let Some((_, _, ops)) = cur.as_mut() {
+            cur = Some((f.first() == Some(&"1"), f.contains(&"tl"), f.contains(&"ni"), vec![]));
+        } else if let Some((_, _, _, ops)) = cur.as_mut() {
             ops.push(line.to_string());
         }
     }
-    if let Some((l, t, ops)) = cur.take() {
-        run_case(log, st, &ops, l, t).await;
+    if let Some((l, t, n, ops)) = cur.take() {
+        if ops.first().is_some_and(|o| o == "tbegin") {
+            run_thr_case(log, st, &ops, l, t).await;
+        } else {
+            run_case(log, st, &ops, l, t, n).await;
+        }
     }
 }
 
@@ -371,7 +803,11 @@ async fn main() {
     }
     if args.u64("only-replay", 0) != 1 {
         // fixed boundary cases first
-        let fixed: [&[&str]; 8] = [
+        let fixed: [&[&str]; 12] = [
+            &["cast", "enter", "cast", "drain", "cast", "leave ok"],
+            &["enter", "drain", "leave ok", "cast"],
+            &["enter", "cast", "drain", "leave err"],
+            &["enter", "cast", "drain", "stop", "leave ok"],
             &["cast", "cast", "drain", "cast", "poll ok"],
             &["drain", "poll ok", "cast"],
             &["cast", "drain", "drain", "poll ok"],
@@ -383,14 +819,80 @@ async fn main() {
         ];
         for (i, f) in fixed.iter().enumerate() {
             let ops: Vec<String> = f.iter().map(|s| s.to_string()).collect();
-            run_case(&mut log, &mut st, &ops, i % 2 == 0, false).await;
-            run_case(&mut log, &mut st, &ops, i % 2 == 1, true).await;
+            if i < 4 {
+                // drain while pre_start is suspended: plain/linked x instant/non-instant x Send/thread-local
+                let ni_ops: Vec<String> = ops.iter().skip_while(|o| *o != "enter").cloned().collect();
+                for linked in [false, true] {
+                    for tl in [false, true] {
+                        run_case(&mut log, &mut st, &ops, linked, tl, false).await;
+                        run_case(&mut log, &mut st, &ni_ops, linked, tl, true).await;
+                    }
+                }
+                continue;
+            }
+            run_case(&mut log, &mut st, &ops, i % 2 == 0, false, false).await;
+            run_case(&mut log, &mut st, &ops, i % 2 == 1, true, false).await;
+        }
+        let fine = args.u64("fine", 0) == 1;
+        if fine {
+            // the drain's own steps at every position of the start: close before the start task
+            // is polled / status while pre_start is suspended / marker after the start, etc.
+            let shapes: [&[&str]; 6] = [
+                &["cast", "dbegin", "dstep", "enter", "dstep", "cast", "leave ok", "dstep", "dstep"],
+                &["dbegin", "enter", "dstep", "cast", "dstep", "dstep", "dstep", "leave ok"],
+                &["cast", "dbegin", "dstep", "dstep", "enter", "leave ok", "dstep", "dstep"],
+                &["enter", "cast", "dbegin", "dstep", "dstep", "dstep", "drain", "dstep", "leave ok"],
+                &["enter", "dbegin", "dstep", "leave ok", "cast", "dstep", "dstep", "dstep"],
+                &["dbegin", "dstep", "dstep", "dstep", "poll ok", "dstep"],
+            ];
+            for f in shapes.iter() {
+                let ops: Vec<String> = f.iter().map(|s| s.to_string()).collect();
+                for linked in [false, true] {
+                    for tl in [false, true] {
+                        run_case(&mut log, &mut st, &ops, linked, tl, false).await;
+                        if ops[0] == "enter" {
+                            run_case(&mut log, &mut st, &ops, linked, tl, true).await;
+                        }
+                    }
+                }
+            }
+        }
+        if fine {
+            // the start thread parked where `start` has no await point (flavour `thr`)
+            let shapes: [&[&str]; 4] = [
+                &["tbegin", "drain", "sstep", "sstep"],
+                &["tbegin", "cast", "sstep", "drain", "sstep"],
+                &["tbegin", "sstep", "cast", "drain", "cast", "sstep"],
+                &["tbegin", "cast", "sstep", "cast", "sstep"],
+            ];
+            for f in shapes.iter() {
+                for linked in [false, true] {
+                    for tl in [false, true] {
+                        let mut ops: Vec<String> = f.iter().map(|s| s.to_string()).collect();
+                        if !linked {
+                            // an unlinked start parks once only: its first `sstep` completes it
+                            let i = ops.iter().position(|o| o == "sstep").unwrap();
+                            ops.truncate(i + 1);
+                        }
+                        run_thr_case(&mut log, &mut st, &ops, linked, tl).await;
+                    }
+                }
+            }
+            for _ in 0..(cases / 4) {
+                let (linked, tl) = (rng.chance(2, 3), rng.chance(1, 2));
+                let ops = gen_thr_ops(&mut rng, linked);
+                run_thr_case(&mut log, &mut st, &ops, linked, tl).await;
+            }
         }
         for _ in 0..cases {
-            let ops = gen_ops(&mut rng, &mut st);
+            let ni = rng.chance(1, 4);
+            let mut ops = gen_ops(&mut rng, &mut st, ni);
+            if fine && rng.chance(2, 3) {
+                add_fine(&mut rng, &mut st, &mut ops, ni);
+            }
             let linked = rng.chance(1, 2);
             let tl = rng.chance(1, 3);
-            run_case(&mut log, &mut st, &ops, linked, tl).await;
+            run_case(&mut log, &mut st, &ops, linked, tl, ni).await;
         }
     }
     st.add("lines", log.lines);
